@@ -426,6 +426,12 @@ func (h *FBDNSDB) ReportBackendStats() {
 	// ReportBackendStats can be called the moment we reload
 	h.reloadMu.RLock()
 	defer h.reloadMu.RUnlock()
+	select {
+	case <-h.done:
+		// Close() already destroyed the database: reading its statistics would touch a closed backend
+		return
+	default:
+	}
 	for k, v := range h.dnsdb.GetStats() {
 		h.stats.ResetCounterTo(k, v)
 	}
